@@ -116,6 +116,17 @@ num_tok!(u32, "u", u32);
 num_tok!(i64, "x", u64);
 num_tok!(u64, "t", u64);
 
+/// raw f64 (catalogue flavour D): compared and printed by bit pattern, never as a float
+impl Tok for f64 {
+    fn from_tok(a: &mut Args) -> Self {
+        assert_eq!(a.next(), "d");
+        f64::from_bits(a.num())
+    }
+    fn to_tok(&self, out: &mut Vec<String>, _s: bool) {
+        out.push("d".into());
+        out.push(self.to_bits().to_string());
+    }
+}
 impl Tok for bool {
     fn from_tok(a: &mut Args) -> Self {
         assert_eq!(a.next(), "b");
@@ -163,7 +174,8 @@ impl Signature for F64 {
     fn has_sig(s: &str) -> bool {
         f64::has_sig(s)
     }
-    // no valid_slice override: a wrapper struct is not promised to have f64's layout; Vec<f64> itself is in the catalogue through "ad"
+    // no valid_slice override: a wrapper struct is not promised to have f64's layout, so arrays of F64 ("ad") take the
+    // element-wise path; the raw f64 with its valid_slice is the catalogue flavour "D" ("aD" = Vec<f64>)
 }
 impl Marshal for F64 {
     fn marshal(&self, ctx: &mut MarshalContext) -> Result<(), MarshalError> {
@@ -298,7 +310,7 @@ impl<'buf, 'fds> Unmarshal<'buf, 'fds> for Sig {
 
 /// A variant whose content type is known statically: marshal through marshal::traits::Variant<T>,
 /// unmarshal through unmarshal::traits::Variant and get::<T>()
-#[derive(Debug)]
+#[derive(Debug, Clone)]
 pub struct Var<T>(pub T);
 impl<T: Tok + Signature> Tok for Var<T> {
     fn from_tok(a: &mut Args) -> Self {
@@ -335,6 +347,203 @@ impl<'buf, 'fds, T: Unmarshal<'buf, 'fds>> Unmarshal<'buf, 'fds> for Var<T> {
     fn unmarshal(ctx: &mut UnmarshalContext<'fds, 'buf>) -> Result<Self, UnmarshalError> {
         let v = rustbus::wire::unmarshal::traits::Variant::unmarshal(ctx)?;
         v.get::<T>().map(Var)
+    }
+}
+
+// ---------------------------------------------------------------- borrowed / flavoured types (same D-Bus type, other Rust impl)
+/// how often a Cow<[E]> came back borrowed / owned since the counters were last taken (informational)
+pub static COW_BORROWED: std::sync::atomic::AtomicUsize = std::sync::atomic::AtomicUsize::new(0);
+pub static COW_OWNED: std::sync::atomic::AtomicUsize = std::sync::atomic::AtomicUsize::new(0);
+pub fn take_cow_counts() -> (usize, usize) {
+    use std::sync::atomic::Ordering::Relaxed;
+    (COW_BORROWED.swap(0, Relaxed), COW_OWNED.swap(0, Relaxed))
+}
+fn cow_note() -> String {
+    match take_cow_counts() {
+        (0, 0) => String::new(),
+        (b, o) => format!(" #cow=b{}o{}", b, o),
+    }
+}
+
+/// text leaves decoded through the borrowing impls (<&str>, ObjectPath<&str>, SignatureWrapper<&str>); the borrowed
+/// result is copied while the message buffer is alive
+macro_rules! text_ref {
+    ($name:ident, $tag:expr, $sigty:ty, $marshal:expr, $unmarshal:expr) => {
+        #[derive(Debug, Clone, PartialEq, Eq, Hash)]
+        pub struct $name(pub String);
+        impl Tok for $name {
+            fn from_tok(a: &mut Args) -> Self {
+                assert_eq!(a.next(), $tag);
+                $name(String::from_utf8(crate::unhex(a.next())).unwrap())
+            }
+            fn to_tok(&self, out: &mut Vec<String>, _s: bool) {
+                out.push($tag.into());
+                out.push(crate::hex(self.0.as_bytes()));
+            }
+        }
+        impl Signature for $name {
+            fn signature() -> rustbus::signature::Type {
+                <$sigty>::signature()
+            }
+            fn alignment() -> usize {
+                <$sigty>::alignment()
+            }
+            fn sig_str(s: &mut SignatureBuffer) {
+                <$sigty>::sig_str(s)
+            }
+            fn has_sig(s: &str) -> bool {
+                <$sigty>::has_sig(s)
+            }
+        }
+        impl Marshal for $name {
+            fn marshal(&self, ctx: &mut MarshalContext) -> Result<(), MarshalError> {
+                let f: fn(&str, &mut MarshalContext) -> Result<(), MarshalError> = $marshal;
+                f(self.0.as_str(), ctx)
+            }
+        }
+        impl<'buf, 'fds> Unmarshal<'buf, 'fds> for $name {
+            fn unmarshal(ctx: &mut UnmarshalContext<'fds, 'buf>) -> Result<Self, UnmarshalError> {
+                let f: fn(&mut UnmarshalContext<'fds, 'buf>) -> Result<String, UnmarshalError> = $unmarshal;
+                f(ctx).map($name)
+            }
+        }
+    };
+}
+text_ref!(BStr, "s", &'static str, |s, ctx| s.marshal(ctx), |ctx| <&'buf str as Unmarshal>::unmarshal(ctx).map(|s| s.to_owned()));
+text_ref!(BPath, "o", ObjectPath<&'static str>, |s, ctx| ObjectPath::<&str>::new(s)?.marshal(ctx), |ctx| {
+    ObjectPath::<&'buf str>::unmarshal(ctx).map(|p| p.as_ref().to_owned())
+});
+text_ref!(BSig, "g", SignatureWrapper<&'static str>, |s, ctx| SignatureWrapper::<&str>::new(s)?.marshal(ctx), |ctx| {
+    SignatureWrapper::<&'buf str>::unmarshal(ctx).map(|p| p.as_ref().to_owned())
+});
+
+/// array flavours: the value (and its tokens) is that of Vec<E>; what differs is the impl of the crate it goes through
+macro_rules! arr_flavour {
+    ($name:ident) => {
+        #[derive(Debug, Clone)]
+        pub struct $name<E>(pub Vec<E>);
+        impl<E: Tok + Signature> Tok for $name<E> {
+            fn from_tok(a: &mut Args) -> Self {
+                $name(Vec::<E>::from_tok(a))
+            }
+            fn to_tok(&self, out: &mut Vec<String>, s: bool) {
+                self.0.to_tok(out, s)
+            }
+        }
+    };
+}
+macro_rules! sig_like {
+    ($name:ident, $like:ty, $($bound:tt)+) => {
+        impl<E: $($bound)+> Signature for $name<E> {
+            fn signature() -> rustbus::signature::Type {
+                <$like>::signature()
+            }
+            fn alignment() -> usize {
+                <$like>::alignment()
+            }
+            fn sig_str(s: &mut SignatureBuffer) {
+                <$like>::sig_str(s)
+            }
+            fn has_sig(s: &str) -> bool {
+                <$like>::has_sig(s)
+            }
+        }
+    };
+}
+// aC: decoded through Cow<[E]> (copied out while the buffer is alive; borrowed/owned is counted), written through &[E]
+arr_flavour!(CowA);
+sig_like!(CowA, std::borrow::Cow<'static, [E]>, Signature + Clone + 'static);
+impl<E: Marshal + Clone + 'static> Marshal for CowA<E> {
+    fn marshal(&self, ctx: &mut MarshalContext) -> Result<(), MarshalError> {
+        let cow: std::borrow::Cow<[E]> = std::borrow::Cow::Borrowed(self.0.as_slice());
+        <&[E] as Marshal>::marshal(&&*cow, ctx)
+    }
+}
+impl<'buf, 'fds, E: Unmarshal<'buf, 'fds> + Clone + 'static> Unmarshal<'buf, 'fds> for CowA<E> {
+    fn unmarshal(ctx: &mut UnmarshalContext<'fds, 'buf>) -> Result<Self, UnmarshalError> {
+        use std::sync::atomic::Ordering::Relaxed;
+        let cow = <std::borrow::Cow<'buf, [E]> as Unmarshal>::unmarshal(ctx)?;
+        match &cow {
+            std::borrow::Cow::Borrowed(_) => COW_BORROWED.fetch_add(1, Relaxed),
+            std::borrow::Cow::Owned(_) => COW_OWNED.fetch_add(1, Relaxed),
+        };
+        Ok(CowA(cow.into_owned()))
+    }
+}
+// aR: written through <&[E] as Marshal> directly (Signature of &[E]); read through Vec<E>
+arr_flavour!(SliceR);
+sig_like!(SliceR, &'static [E], Signature + 'static);
+impl<E: Marshal + 'static> Marshal for SliceR<E> {
+    fn marshal(&self, ctx: &mut MarshalContext) -> Result<(), MarshalError> {
+        let slice: &[E] = self.0.as_slice();
+        <&[E] as Marshal>::marshal(&slice, ctx)
+    }
+}
+impl<'buf, 'fds, E: Unmarshal<'buf, 'fds> + 'static> Unmarshal<'buf, 'fds> for SliceR<E> {
+    fn unmarshal(ctx: &mut UnmarshalContext<'fds, 'buf>) -> Result<Self, UnmarshalError> {
+        Vec::<E>::unmarshal(ctx).map(SliceR)
+    }
+}
+// aN: written through [E; N] for the lengths below, through the unsized [E] otherwise (Signature of [E; N]); read through Vec<E>
+arr_flavour!(ArrN);
+sig_like!(ArrN, [E; 3], Signature + 'static);
+impl<E: Marshal + 'static> Marshal for ArrN<E> {
+    fn marshal(&self, ctx: &mut MarshalContext) -> Result<(), MarshalError> {
+        fn as_arr<E, const N: usize>(v: &[E]) -> &[E; N] {
+            v.try_into().unwrap()
+        }
+        let v = self.0.as_slice();
+        match v.len() {
+            0 => <[E; 0] as Marshal>::marshal(as_arr(v), ctx),
+            1 => <[E; 1] as Marshal>::marshal(as_arr(v), ctx),
+            2 => <[E; 2] as Marshal>::marshal(as_arr(v), ctx),
+            3 => <[E; 3] as Marshal>::marshal(as_arr(v), ctx),
+            4 => <[E; 4] as Marshal>::marshal(as_arr(v), ctx),
+            5 => <[E; 5] as Marshal>::marshal(as_arr(v), ctx),
+            8 => <[E; 8] as Marshal>::marshal(as_arr(v), ctx),
+            _ => <[E] as Marshal>::marshal(v, ctx),
+        }
+    }
+}
+impl<'buf, 'fds, E: Unmarshal<'buf, 'fds> + 'static> Unmarshal<'buf, 'fds> for ArrN<E> {
+    fn unmarshal(ctx: &mut UnmarshalContext<'fds, 'buf>) -> Result<Self, UnmarshalError> {
+        Vec::<E>::unmarshal(ctx).map(ArrN)
+    }
+}
+/// aBy: written through &[u8], read through <&[u8] as Unmarshal> (Cursor::read_u8_slice), copied while the buffer is alive
+#[derive(Debug, Clone)]
+pub struct BBytes(pub Vec<u8>);
+impl Tok for BBytes {
+    fn from_tok(a: &mut Args) -> Self {
+        BBytes(Vec::<u8>::from_tok(a))
+    }
+    fn to_tok(&self, out: &mut Vec<String>, s: bool) {
+        self.0.to_tok(out, s)
+    }
+}
+impl Signature for BBytes {
+    fn signature() -> rustbus::signature::Type {
+        <&[u8]>::signature()
+    }
+    fn alignment() -> usize {
+        <&[u8]>::alignment()
+    }
+    fn sig_str(s: &mut SignatureBuffer) {
+        <&[u8]>::sig_str(s)
+    }
+    fn has_sig(s: &str) -> bool {
+        <&[u8]>::has_sig(s)
+    }
+}
+impl Marshal for BBytes {
+    fn marshal(&self, ctx: &mut MarshalContext) -> Result<(), MarshalError> {
+        let slice: &[u8] = self.0.as_slice();
+        <&[u8] as Marshal>::marshal(&slice, ctx)
+    }
+}
+impl<'buf, 'fds> Unmarshal<'buf, 'fds> for BBytes {
+    fn unmarshal(ctx: &mut UnmarshalContext<'fds, 'buf>) -> Result<Self, UnmarshalError> {
+        <&'buf [u8] as Unmarshal>::unmarshal(ctx).map(|s| BBytes(s.to_vec()))
     }
 }
 
@@ -411,6 +620,7 @@ tuple_tok!(1, A 0);
 tuple_tok!(2, A 0, B 1);
 tuple_tok!(3, A 0, B 1, C 2);
 tuple_tok!(4, A 0, B 1, C 2, D 3);
+tuple_tok!(5, A 0, B 1, C 2, D 3, E 4);
 
 // ---------------------------------------------------------------- operations
 pub fn bo(a: &mut Args) -> ByteOrder {
@@ -418,6 +628,46 @@ pub fn bo(a: &mut Args) -> ByteOrder {
         "le" => ByteOrder::LittleEndian,
         "be" => ByteOrder::BigEndian,
         x => panic!("byte order {}", x),
+    }
+}
+
+/// Operations on a type that can only be marshalled (catalogue::MARSHAL_ONLY). MT as in `run`; RT marshals prefix, value
+/// and trailer and hands the body back ("BODY <bo> <prefix> <nfds> <sig hex> <buf hex> <value tokens, canonical>") for bin/wire.rs to
+/// read it with the dynamic API, because there is no typed decoder for these types.
+pub fn run_m<T>(op: &str, a: &mut Args) -> String
+where
+    T: Tok + Marshal,
+{
+    match op {
+        "MT" | "RT" => {
+            let bo_tok = a.next();
+            let byteorder = match bo_tok {
+                "le" => ByteOrder::LittleEndian,
+                _ => ByteOrder::BigEndian,
+            };
+            let prefix = a.num();
+            let v = T::from_tok(a);
+            let mut msg = rustbus::message_builder::MarshalledMessage::new();
+            msg.body = MarshalledMessageBody::with_byteorder(byteorder);
+            for i in 0..prefix {
+                msg.body.push_param((i as u8).wrapping_mul(37).wrapping_add(1)).unwrap();
+            }
+            let r = msg.body.push_param(&v);
+            if op == "MT" {
+                let mut ordered = Vec::new();
+                v.to_tok(&mut ordered, false);
+                let res = if r.is_ok() { "ok" } else { "err" };
+                return format!("{} sig={} buf={} nfds={} val={}", res, crate::hex(msg.get_sig().as_bytes()), crate::hex(msg.get_buf()), msg.body.get_fds().len(), ordered.join(" "));
+            }
+            if r.is_err() {
+                return "pusherr".to_string();
+            }
+            msg.body.push_param(0xA5u8).unwrap();
+            let mut orig = Vec::new();
+            v.to_tok(&mut orig, true);
+            format!("BODY {} {} {} {} {} {}", bo_tok, prefix, msg.body.get_fds().len(), crate::hex(msg.get_sig().as_bytes()), crate::hex(msg.get_buf()), orig.join(" "))
+        }
+        _ => "NOOP".to_string(),
     }
 }
 
@@ -484,7 +734,8 @@ where
             let left = p.sigs_left();
             let mut orig = Vec::new();
             v.to_tok(&mut orig, true);
-            format!("{} validate={} {} left={} same={} val={}", res, valid, trailer, left, orig == out, out.join(" "))
+            let (cb, co) = take_cow_counts();
+            format!("{} validate={} {} left={} same={} cow=b{}o{} val={}", res, valid, trailer, left, orig == out, cb, co, out.join(" "))
         }
         // UT <bo> <offset> <nfds> <memphase> <hex>: typed unmarshal of T from raw bytes at offset, buffer placed at
         // address = 8k + memphase. Prints ok <consumed> <value> | err
@@ -509,9 +760,13 @@ where
                 Ok(x) => {
                     let mut out = Vec::new();
                     x.to_tok(&mut out, true);
-                    format!("ok {} {}", buf.len() - ctx.remainder().len() - offset, out.join(" "))
+                    // "#cow=b<n>o<m>": how many Cow<[E]> inside the value came back borrowed / owned (informational)
+                    format!("ok {} {}{}", buf.len() - ctx.remainder().len() - offset, out.join(" "), cow_note())
                 }
-                Err(_) => "err".to_string(),
+                Err(_) => {
+                    take_cow_counts();
+                    "err".to_string()
+                }
             };
             set_fd_table(&[]);
             res
